@@ -818,6 +818,8 @@ class Exec:
     def _attr_of(self, obj, a, e):
         if isinstance(obj, VConst) and isinstance(obj.py, str) and a in ("format", "join", "upper", "lower", "strip"):
             return VBound(obj, a)
+        if isinstance(obj, VZ) and obj.kind == "str":
+            return VBound(obj, a)
         if isinstance(obj, (VModule, VConn, VCursor, VSet, VList, VDict, VListeners, VMsg, VRow, VBag, VMap, VUnknownColl)):
             return VBound(obj, a)
         raise Unsupported("attribute %s of %r at %d" % (a, obj, e.lineno))
@@ -1174,11 +1176,10 @@ class Exec:
             # log.* has no effect (A12), but computing its arguments can raise: they are evaluated where the engine
             # can evaluate them (an unsupported expression there is skipped, not a reason to give up the function)
             for a_ in list(e.args) + [k_.value for k_ in e.keywords]:
-                saved_pc, saved_obl = len(self.p.pc), len(self.p.obls)
                 try:
                     self.eval(a_, env)
                 except Unsupported:
-                    del self.p.obls[saved_obl:]
+                    pass        # (what was evaluated before the unsupported sub-expression stands)
             return VConst(None)
         root = e.func
         while isinstance(root, ast.Attribute):
